@@ -123,6 +123,10 @@ func checkRefSelf(rc RefCase, ctx *vcommon.Ctx) *vcommon.Failure {
 		if !over {
 			c.Class("float-checked")
 			text, _ := json.Marshal(f)
+			if mine := refFloatText(f); mine != string(text) {
+				bad = vcommon.Failf("selfcheck/ref-float-text", "refFloatText(%v) = %s but encoding/json writes %s", f, mine, text)
+				return
+			}
 			if key, why := canonFloatIssue(string(text), f); key != "" {
 				bad = vcommon.Failf("selfcheck/canonical-float", "encoding/json writes %v as %s, which canonFloatIssue rejects: %s", f, text, why)
 				return
